@@ -34,7 +34,7 @@ GATES = {
     "zero_variance_window": 1,
     "width_equals_window": 1,
     "right_volume_checked": 5,
-    "multiband": 2, "right_bands_in_another_order": 1, "matching_cost_object_reused_over_refilled_buffers": 5, "zncc_on_a_faint_texture_over_a_high_level": 1, "zncc_with_nodata_pixels_holding_nan_samples": 2,
+    "multiband": 2, "right_bands_in_another_order": 1, "right_image_with_another_mask_convention": 2, "matching_cost_object_reused_over_refilled_buffers": 5, "zncc_on_a_faint_texture_over_a_high_level": 1, "zncc_with_nodata_pixels_holding_nan_samples": 2,
     "roi_offset_coordinates": 2,
     "costs_compared": 100000,
 }
@@ -86,6 +86,8 @@ def cases(spec, ctx):
             yield {"work": "directed", "what": "nan-nodata", "method": "zncc", "sp": 1, "i": k}
         for k in range(2):
             yield {"work": "directed", "what": "faint", "method": "zncc", "sp": 1, "i": k}
+        for k, m_ in enumerate(("sad", "zncc", "census")):
+            yield {"work": "directed", "what": "right-convention", "method": m_, "sp": [1, 2, 4][k], "i": k}
         yield {"work": "directed", "what": "width-eq-window"}
         for m in ("sad", "ssd", "census", "zncc"):
             yield {"work": "directed", "what": "multiband", "method": m}
@@ -137,6 +139,8 @@ def build(case, ctx):
         subpix, lmk, rmk = case["sp"], "sparse", "sparse"
     elif what == "faint":
         subpix, tex, w = 1, "faint", 3
+    elif what == "right-convention":
+        subpix, rmk = case["sp"], "sparse"
     elif what == "width-eq-window":
         w = 5
         cols = 5
@@ -192,11 +196,18 @@ def build(case, ctx):
         perm = [int(x) for x in np.roll(np.arange(bands), 1 + int(rng.integers(0, bands - 1)))]
         r = r[perm]
         rbands = [gen.BAND_NAMES[i] for i in perm]
-    right = gen.make_dataset(r, rdisp, rm, row0=row0, col0=col0, bands=rbands)
+    # each dataset declares its own mask convention (valid_pixels / no_data_mask): a fifth of the masked right images use
+    # another one than the left image (valid 5, no data 7, anything else invalid)
+    right_convention = rm is not None and (rng.random() < 0.2 or what == "right-convention")
+    if right_convention:
+        rm_coded = np.where(np.asarray(rm) == 0, 5, np.where(np.asarray(rm) == 1, 7, np.asarray(rm) + 10)).astype(np.int16)
+        right = gen.make_dataset(r, rdisp, rm_coded, row0=row0, col0=col0, bands=rbands, extra_attrs={"valid_pixels": 5, "no_data_mask": 7})
+    else:
+        right = gen.make_dataset(r, rdisp, rm, row0=row0, col0=col0, bands=rbands)
     desc = {
         "method": method, "window": w, "subpix": subpix, "shape": [rows, cols], "texture": tex, "bands": bands,
         "band": band, "left_mask": lmk, "right_mask": rmk, "interval": ikind, "col0": col0, "row0": row0,
-        "validation": validation, "right_bands": rbands, "nan_nodata": bool(nan_nodata and (np.isnan(l).any() or np.isnan(r).any())),
+        "validation": validation, "right_bands": rbands, "right_convention": bool(right_convention), "nan_nodata": bool(nan_nodata and (np.isnan(l).any() or np.isnan(r).any())),
         "disp": [int(np.min(disp[0])), int(np.max(disp[1]))],
     }
     return desc, left, right, band
@@ -295,6 +306,8 @@ def run_case(case, ctx):
     R = rcopy["im"].data if rcopy["im"].ndim == 2 else rcopy["im"].data[list(rcopy.coords["band_im"].data).index(band)]
     lmsk = lcopy["msk"].data if "msk" in lcopy else None
     rmsk = rcopy["msk"].data if "msk" in rcopy else None
+    if rmsk is not None and desc["right_convention"]:
+        rmsk = np.where(rmsk == 5, 0, np.where(rmsk == 7, 1, 2)).astype(np.int16)  # back to the reference's 0 / 1 / other codes
     dmin = lcopy["disparity"].sel(band_disp="min").data
     dmax = lcopy["disparity"].sel(band_disp="max").data
     exp, disps = ref.reference_cv(method, L, R, dmin, dmax, w, subpix, lmsk, rmsk)
@@ -314,6 +327,7 @@ def run_case(case, ctx):
     ctx.gate("grid_with_non_integer_bounds", int(desc["interval"] == "grid-float"))
     ctx.gate("width_equals_window", int(cols == w))
     ctx.gate("multiband", int(desc["bands"] > 1))
+    ctx.gate("right_image_with_another_mask_convention", int(desc["right_convention"]))
     ctx.gate("zncc_on_a_faint_texture_over_a_high_level", int(desc["texture"] == "faint" and desc["method"] == "zncc" and desc["subpix"] == 1))
     ctx.gate("zncc_with_nodata_pixels_holding_nan_samples", int(desc["nan_nodata"] and desc["method"] == "zncc"))
     ctx.gate("right_bands_in_another_order", int(bool(desc["right_bands"])))
